@@ -202,6 +202,15 @@ func vh_C18_L4_read_deadline() {
 			n, _, rerr = s.ReadSCTP(buf)
 			vassert(n == 2 && rerr == nil, "data received before the end is still read first")
 		}
+		// arming or clearing a read deadline afterwards (the SetReadDeadline-then-Read idiom)
+		// does not make the stream forget that it has ended
+		switch vPick(3) {
+		case 1:
+			_ = s.SetReadDeadline(time.Time{})
+		case 2:
+			_ = s.SetReadDeadline(time.Now().Add(time.Hour))
+		}
+		vSpawned = nil
 		vMustNotBlock("a read after end-of-file returns")
 		_, _, rerr := s.ReadSCTP(buf)
 		vMayBlock()
